@@ -51,11 +51,21 @@ def wake_order_program(rng):
     """3-6 activities subscribe to one notification (await / until-block / own comparison of one
     tracked value); some of them leave before it fires; the rest must resume in the order in
     which they subscribed."""
-    kind = rng.choice(["await-flag", "until-flag", "await-shared-and", "own-comparison"])
+    kind = rng.choice(["await-flag", "until-flag", "await-shared-and", "own-comparison",
+                       "await-not-flag", "await-task", "until-task", "await-time", "cmp-tracked"])
     n = rng.randint(3, 6)
     resources = {"F": {"kind": "flag"}, "G": {"kind": "flag", "init": True},
-                 "X": {"kind": "tracked", "init": 0}}
-    if kind == "await-flag":
+                 "X": {"kind": "tracked", "init": 0}, "Y": {"kind": "tracked", "init": 1}}
+    if kind == "await-not-flag":
+        expr = {"k": "not", "x": {"k": "flag", "n": "G"}}         # the inverse of a flag
+    elif kind in ("await-task", "until-task"):
+        expr = {"k": "done", "task": "w"}                         # completion of one task
+    elif kind == "await-time":
+        expr = {"k": "shared", "n": "T", "x": {"k": "time", "op": rng.choice([">=", "=="]),
+                                               "t": 3}}           # one time condition object
+    elif kind == "cmp-tracked":
+        expr = {"k": "cmp", "l": "X", "op": ">=", "r": {"tr": "Y"}}   # listener of two values
+    elif kind == "await-flag":
         expr = {"k": "flag", "n": "F"}
     elif kind == "until-flag":
         expr = {"k": "flag", "n": "F"}
@@ -65,12 +75,14 @@ def wake_order_program(rng):
     else:
         expr = {"k": "cmp", "l": "X", "op": ">=", "r": 1}
     actors = []
+    if kind in ("await-task", "until-task"):
+        actors.append({"name": "w", "ops": [{"op": "wait", "id": "ww", "x": {"k": "flag", "n": "F"}}]})
     # condition objects that are only looked at, kept for a while and dropped again between two
     # subscriptions: unrelated garbage whose addresses get re-used by later subscribers
     n_probe = rng.choice([0, 1, 2, 3, 5])
     drop_before = rng.randint(1, n - 1) if n_probe else None
     if n_probe:
-        if kind == "own-comparison":
+        if kind in ("own-comparison", "cmp-tracked"):
             probes = [{"k": "cmp", "l": "X", "op": ">=", "r": 5 + j} for j in range(n_probe)]
         else:
             probes = [rng.choice([{"k": "not", "x": {"k": "flag", "n": "F"}},
@@ -83,7 +95,9 @@ def wake_order_program(rng):
         actors.append({"name": "prober", "ops": ops})
     for i in range(n):
         ops = [{"op": "postpone", "k": i + 1 + (2 if drop_before is not None and i >= drop_before else 0)}]          # subscribe one after the other
-        if kind == "until-flag":
+        if kind == "await-task" and i % 2:
+            ops.append({"op": "await_task", "task": "w"})
+        elif kind in ("until-flag", "until-task"):
             ops.append({"op": "scope", "label": "U%d" % i, "until": expr, "children": [],
                         "body": [{"op": "now", "tag": "subscribed"}, {"op": "eternity"}]})
         else:
@@ -97,12 +111,18 @@ def wake_order_program(rng):
         if rng.random() < 0.5:
             killer.append({"op": "postpone", "k": 1})
     killer.append({"op": "sleep", "d": 1})
-    fire = {"op": "tr_set", "on": "X", "to": 2} if kind == "own-comparison" \
+    fire = {"op": "tr_set", "on": "X", "to": 2} if kind in ("own-comparison", "cmp-tracked") \
+        else {"op": "flag_set", "on": "G", "to": False} if kind == "await-not-flag" \
+        else {"op": "sleep", "d": 1.5} if kind == "await-time" \
         else {"op": "flag_set", "on": "F"}
-    if kind != "until-flag" and rng.random() < 0.4:
+    if kind == "cmp-tracked" and rng.random() < 0.5:
+        fire = {"op": "tr_set", "on": "Y", "to": -1}
+    if kind in ("await-flag", "await-shared-and", "own-comparison", "await-not-flag") \
+            and rng.random() < 0.4:
         # a false alarm first: the notification fires and is withdrawn again (by an activity
         # that is served before the woken waiters) - they go back to waiting, in their old order
         undo = {"op": "tr_set", "on": "X", "to": 0} if kind == "own-comparison" \
+            else {"op": "flag_set", "on": "G", "to": True} if kind == "await-not-flag" \
             else {"op": "flag_set", "on": "F", "to": False}
         # (started one after the other, so at t=2 `undo` is served right behind `early`)
         actors.append({"name": "early", "ops": [{"op": "sleep", "d": 2}, fire]})
@@ -189,7 +209,7 @@ def generate(rng, tier):
     batch.extend(diamond_program(rng) for _ in range(6))
     for sub in batch:
         if rng.random() < 0.5:
-            sub["gc_ticks"] = sorted(rng.randint(1, 80) for _ in range(rng.randint(1, 3)))
+            sub["gc_ticks"] = sorted(union.fault_tick(rng, 80) for _ in range(rng.randint(1, 3)))
     n_sub = 2 if tier == "quick" else len(SUBPROC)
     picks = rng.sample(range(len(SUBPROC)), n_sub)
     return {"property": ID, "batch": batch, "subproc": picks, "scenario": {"actors": []},
